@@ -260,6 +260,41 @@ def coupled_state(F):
                     if bad:
                         r.violate("%s | function cursor passed to func_iterator.%s" % (fn["path"], c["method"]), F.loc(fn, c),
                                   "%s passes the function cursor `curr_idx` to the instruction sub-iterator's `%s`: a position among functions is compared with a position among instructions" % (fn["name"], c["method"]))
+    # reset(p..) re-establishes what new(p..) establishes: every parameter of a sub-iterator's `reset` is stored in the field
+    # `new` stores the like-named parameter in, on every normal path (a "nothing to rewind" shortcut keeps a stale bound)
+    for adt_ in ("FuncSubIterator", "ModuleSubIterator", "ComponentSubIterator"):
+        news = F.find_fns(name="new", self_adt=adt_)
+        resets = [f_ for f_ in F.find_fns(self_adt=adt_) if f_["name"].startswith("reset") and f_.get("body") is not None]
+        if len(news) != 1 or news[0].get("body") is None:
+            continue
+        nparams = {pm["pat"].get("hid"): pm["pat"].get("name") for pm in news[0].get("params", []) if pm["pat"].get("k") == "Binding"}
+        field_of = {}
+        for lit in walk(news[0]["body"]):
+            if lit.get("k") == "Struct" and (lit.get("adt") or "").endswith(adt_) and "rest" not in lit:
+                for fname, val in lit.get("fields", []):
+                    v_ = peel(val)
+                    if v_.get("k") == "Path" and v_.get("res", {}).get("hid") in nparams:
+                        field_of[nparams[v_["res"]["hid"]]] = fname
+        for rf in resets:
+            for pm in rf.get("params", []):
+                pn, ph = pm["pat"].get("name"), pm["pat"].get("hid")
+                if pn == "self" or pn not in field_of:
+                    continue
+                fld = field_of[pn]
+
+                def cl_r(n_, fld=fld, ph=ph):
+                    if n_.get("k") == "Assign" and (place_path(n_["lhs"]) or "") == "self." + fld and any(y.get("k") == "Path" and y.get("res", {}).get("hid") == ph for y in walk(n_["rhs"])):
+                        return "STORE"
+                    return None
+                evs = {ev for ev, st_ in paths(rf["body"], cl_r) if st_ in ("fall", "ret")}
+                stores_somewhere = any("STORE" in ev for ev in evs)
+                if not stores_somewhere:
+                    continue      # this reset keeps the configuration (or stores it through a helper): nothing to compare
+                ok = all("STORE" in ev for ev in evs)
+                r.ob(ok, {"fn": rf["path"], "stores parameter": pn, "in field": fld, "on every path": ok})
+                if not ok:
+                    r.violate("%s | %s not stored on every path" % (rf["path"], pn), F.loc(rf),
+                              "%s stores its `%s` argument in `%s` only on some paths: after the other paths the sub-iterator keeps the bound of the function it was at before" % (rf["name"], pn, fld))
     r.count("cursor_moving_fns", n)
     return r
 
